@@ -75,21 +75,23 @@ CONFIGS = [
     ("two/m0>1,m1>0", [("p0", "primary"), ("r1", "replica")], [("m0", 1), ("m1", 0)], 1),
     ("two/m0>0,m1>5", [("p0", "primary"), ("r1", "replica")], [("m0", 0), ("m1", 5)], 1),
     ("one/pool2/m0>0", [("p0", "primary")], [("m0", 0)], 2),
+    ("one/cache/m0>0", [("p0", "primary")], [("m0", 0)], 1, {"prepared_statements_cache_size": 50}),
+    ("two/cache/m0>1,m1>0", [("p0", "primary"), ("r1", "replica")], [("m0", 1), ("m1", 0)], 1, {"prepared_statements_cache_size": 50}),
 ]
 ALL_BACKENDS = ["p0", "r1", "m0", "m1"]
 
 
 def make_toml(cfg, with_mirrors):
-    name, servers, mirrors, pool_size = cfg
+    name, servers, mirrors, pool_size = cfg[:4]
     shard = {"servers": [[b, r] for b, r in servers]}
     if with_mirrors and mirrors:
         shard["mirrors"] = [[b, i] for b, i in mirrors]
     return W.make_toml(general={"connect_timeout": 400, "healthcheck_timeout": 400, "healthcheck_delay": 600000},
-                       pools={"db": {"opts": {"default_role": "primary", "primary_reads_enabled": True}, "users": [{"pool_size": pool_size}], "shards": [shard]}})
+                       pools={"db": {"opts": dict({"default_role": "primary", "primary_reads_enabled": True}, **(cfg[4] if len(cfg) > 4 else {})), "users": [{"pool_size": pool_size}], "shards": [shard]}})
 
 
 def coq_cfg(cfg):
-    name, servers, mirrors, pool_size = cfg
+    name, servers, mirrors, pool_size = cfg[:4]
     return "[mkShard [%s] [%s]]" % ("; ".join("%d%%N" % i for i in range(len(servers))),
                                       "; ".join("mkMirror %d%%N %d" % (j, t) for j, (b, t) in enumerate(mirrors)))
 
@@ -99,7 +101,7 @@ def Q(sql):
     return {"t": "Q", "sql": sql}
 
 
-def req(c, msgs, until="ZE", count=1, kind="q"):
+def req(c, msgs, until="Z", count=1, kind="q"):
     return {"c": c, "msgs": msgs, "until": until, "count": count, "kind": kind}
 
 
@@ -135,7 +137,7 @@ def gen_program(rng, two_servers, nreq, tag, burst=False, clients=("c1",)):
             msgs += [{"t": "E", "portal": ""}, {"t": "S"}]
             out.append(req(c, msgs, until="Z", kind="ext"))
         elif k < 0.82:
-            out.append(req(c, [Q("COPY t FROM STDIN %s" % t())], until="GZE", kind="copy"))
+            out.append(req(c, [Q("COPY t FROM STDIN %s" % t())], until="GZ", kind="copy"))
             data = [{"t": "d", "data": "row%d\n" % i + "z" * rng.choice([0, 10, 3000, 9000])} for i in range(rng.randint(1, 4))]
             out.append(req(c, data + [{"t": "c"}], until="Z", kind="copy"))
         elif k < 0.88:
@@ -160,7 +162,7 @@ def gen_program(rng, two_servers, nreq, tag, burst=False, clients=("c1",)):
                 depth -= 1
         out.pop(i)
         b = req(c, [Q("SELECT %d %s" % (j, t())) for j in range(m)], until="Z", count=m, kind="burst")
-        if depth == 0 and not (i > 0 and out[i - 1]["kind"] == "copy" and out[i - 1]["until"] == "GZE"):
+        if depth == 0 and not (i > 0 and out[i - 1]["kind"] == "copy" and out[i - 1]["until"] == "GZ"):
             out.insert(i, b)
         else:
             out.insert(0, b)
@@ -190,7 +192,7 @@ def gen_schedule(rng, mirrors, nreq, fault):
     return sorted(sched, key=lambda x: x[0])
 
 
-def build_scenario(cfg, program, sched, with_mirrors, tail_ms=150, extra_tail=None):
+def build_scenario(cfg, program, sched, with_mirrors, tail_ms=150, extra_tail=None, app=None):
     clients = []
     steps = []
     for r in program:
@@ -202,8 +204,15 @@ def build_scenario(cfg, program, sched, with_mirrors, tail_ms=150, extra_tail=No
             steps.append({"op": "backend", "b": b, "mode": mode, "slow_ms": slow})
     steps.append({"op": "sleep", "ms": 30})
     for c in clients:
-        steps.append({"op": "connect", "c": c, "params": {"user": "u", "database": "db"}, "password": "pw"})
+        if c == "c9":
+            continue   # connects later (after the server connection of c1 was closed by the server)
+        params = {"user": "u", "database": "db"}
+        if app:
+            params["application_name"] = app   # makes pgcat send its own SET application_name (sync_parameters)
+        steps.append({"op": "connect", "c": c, "params": params, "password": "pw"})
     for i, r in enumerate(program):
+        if r["c"] == "c9" and not any(st.get("op") == "connect" and st.get("c") == "c9" for st in steps):
+            steps.append({"op": "connect", "c": "c9", "params": {"user": "u", "database": "db"}, "password": "pw"})
         for at, b, mode, slow in sched:
             if at == i and i > 0:
                 steps.append({"op": "backend", "b": b, "mode": mode, "slow_ms": slow})
@@ -321,7 +330,7 @@ def server_transcript(res, servers):
 
 def check_pair(cfg, program, sched, res_m, res_b):
     """all model-free checks on one (mirrored run, baseline run) pair -> list of (kind, text)"""
-    name, servers, mirrors, pool_size = cfg
+    name, servers, mirrors, pool_size = cfg[:4]
     bad = []
     for res in (res_m, res_b):
         if "harness_error" in res or "start_error" in res:
@@ -407,7 +416,7 @@ def check_pair(cfg, program, sched, res_m, res_b):
 
 
 def mirror_counts(cfg, res_m):
-    name, servers, mirrors, pool_size = cfg
+    name, servers, mirrors, pool_size = cfg[:4]
     out = {}
     for mb, tgt in mirrors:
         md, morder = conn_frames(res_m, mb)
@@ -442,7 +451,7 @@ def plan_for(cfg, res_m, mode, capacity):
     were opened, one Send per whole buffer the real server received (global order), and the mirror
     schedule: 'healthy' = connected at once, every buffer delivered right away; 'outage' = nothing
     delivered until the end, then reconnect + deliver everything queued."""
-    name, servers, mirrors, pool_size = cfg
+    name, servers, mirrors, pool_size = cfg[:4]
     opens, sends = [], []
     cid_of = {}
     seg_list = {}
@@ -494,7 +503,7 @@ def plan_for(cfg, res_m, mode, capacity):
 
 def compare_model(cfg, res_m, model_val, cid_of, seg_list):
     """model_val: [(server index, [(mirror pos, [[id]...])])] per connection, in cid order"""
-    name, servers, mirrors, pool_size = cfg
+    name, servers, mirrors, pool_size = cfg[:4]
     bad = []
     inv = {v: k for k, v in cid_of.items()}
     if len(model_val) != len(inv):
@@ -546,7 +555,7 @@ def desync_scenario(with_fault):
         steps.append({"op": "backend", "b": "m0", "reply_segs": [cut], "reply_segd": 400})
     for i, r in enumerate(program):
         steps.append({"op": "send", "c": "c1", "msgs": r["msgs"]})
-        steps.append({"op": "recv", "c": "c1", "until": "ZE", "count": 1, "timeout_ms": 3000, "label": "r%d" % i})
+        steps.append({"op": "recv", "c": "c1", "until": "Z", "count": 1, "timeout_ms": 3000, "label": "r%d" % i})
         if i == 0:
             steps.append({"op": "sleep", "ms": 60})
         if i == 1:
@@ -560,11 +569,11 @@ def zombie_scenario():
     """C20-M2.  Mirror unreachable; the mirrored server connection is created, used, and closed (the server closes
     it: /*mock: close*/); 600 ms later the mirror comes up: the task of the dead connection connects to it."""
     cfg = CONFIGS[0]
-    steps = [{"op": "backend", "b": "m0", "mode": "down"},
+    steps = [{"op": "backend", "b": "m0", "mode": "down"}, {"op": "sleep", "ms": 30},
              {"op": "connect", "c": "c1", "params": {"user": "u", "database": "db"}, "password": "pw"}]
     for i in range(3):
-        steps += [{"op": "send", "c": "c1", "msgs": [Q("SELECT %d /*z_%d*/" % (i, i))]}, {"op": "recv", "c": "c1", "until": "ZE", "timeout_ms": 3000, "label": "r%d" % i}]
-    steps += [{"op": "send", "c": "c1", "msgs": [Q("SELECT 1 /*mock: close*/ /*z_close*/")]}, {"op": "recv", "c": "c1", "until": "ZE", "timeout_ms": 3000, "label": "rclose"},
+        steps += [{"op": "send", "c": "c1", "msgs": [Q("SELECT %d /*z_%d*/" % (i, i))]}, {"op": "recv", "c": "c1", "until": "Z", "timeout_ms": 3000, "label": "r%d" % i}]
+    steps += [{"op": "send", "c": "c1", "msgs": [Q("SELECT 1 /*mock: close*/ /*z_close*/")]}, {"op": "recv", "c": "c1", "until": "Z", "timeout_ms": 3000, "label": "rclose"},
               {"op": "sleep", "ms": 600}, {"op": "snapshot", "label": "primary connection gone"},
               {"op": "backend", "b": "m0", "mode": "normal"}, {"op": "sleep", "ms": 1200}, {"op": "snapshot", "label": "end"}]
     return cfg, {"backends": [{"name": b} for b in ALL_BACKENDS], "toml": make_toml(cfg, True), "hex": True, "timing": True, "steps": steps}
@@ -624,12 +633,17 @@ def check(run):
             c2 = [req("c2", [Q("BEGIN /*f%d_c2b*/" % i)], kind="txn"), req("c2", [Q("SELECT 7 /*f%d_c2s*/" % i)], kind="txn")]
             at = rng.randint(0, max(0, len(program) // 2))
             # not between a COPY start and its data, not inside c1's own transaction (only one server connection would be free anyway)
-            while at < len(program) and at > 0 and (program[at - 1]["until"] == "GZE"):
+            while at < len(program) and at > 0 and (program[at - 1]["until"] == "GZ"):
                 at += 1
             program = program[:at] + c2 + program[at:] + [req("c2", [Q("COMMIT /*f%d_c2c*/" % i)], kind="txn")]
+        if i % 5 == 4:
+            # the real server closes its connection under a query (pgcat ends that client); a new client then gets a new
+            # server connection, i.e. a second mirror task while the first one is told to exit
+            program = program + [req("c1", [Q("SELECT 1 /*mock: close*/ /*f%d_close*/" % i)], kind="srvclose"),
+                                 req("c9", [Q("SELECT 2 /*f%d_n1*/" % i)]), req("c9", [Q("SELECT 3 /*f%d_n2*/" % i)])]
         fault = FAULTS[i % len(FAULTS)]
         sched = gen_schedule(rng, cfg[2], len(program), fault)
-        cases.append({"kind": "fault", "cfg": cfg, "program": program, "sched": sched, "fault": fault})
+        cases.append({"kind": "fault", "cfg": cfg, "program": program, "sched": sched, "fault": fault, "app": ("app%d" % i) if i % 2 else None})
     # deterministic families for the model differential
     for i, cfg in enumerate(CONFIGS if quick else CONFIGS * 6):
         two = len(cfg[1]) == 2
@@ -649,8 +663,8 @@ def check(run):
         tail = 150
         if cs["kind"] == "outage":
             tail = 900
-        cs["scn_m"] = build_scenario(cs["cfg"], cs["program"], cs["sched"], True, tail_ms=tail, extra_tail=extra)
-        cs["scn_b"] = build_scenario(cs["cfg"], cs["program"], cs["sched"], False, tail_ms=20)
+        cs["scn_m"] = build_scenario(cs["cfg"], cs["program"], cs["sched"], True, tail_ms=tail, extra_tail=extra, app=cs.get("app"))
+        cs["scn_b"] = build_scenario(cs["cfg"], cs["program"], cs["sched"], False, tail_ms=20, app=cs.get("app"))
         scns += [cs["scn_m"], cs["scn_b"]]
     run.log("running %d scenario pairs" % len(cases))
     results = W.run_scenarios(wire, scns, timeout=120)
@@ -764,7 +778,7 @@ def check(run):
         for cs in cases:
             if cs["kind"] != "healthy" or "harness_error" in cs["res_m"]:
                 continue
-            name, servers, mirrors, pool_size = cs["cfg"]
+            name, servers, mirrors, pool_size = cs["cfg"][:4]
             for j, (mb, t) in enumerate(mirrors):
                 md, morder = conn_frames(cs["res_m"], mb)
                 used = t < len(servers) and bool(conn_frames(cs["res_m"], servers[t][0])[1])
@@ -844,7 +858,7 @@ def replay(run, path):
     inp = r.get("input", {})
     if "config" in inp and "program" in inp:
         cfg = inp["config"]
-        cfg = (cfg[0], [tuple(x) for x in cfg[1]], [tuple(x) for x in cfg[2]], cfg[3])
+        cfg = tuple([cfg[0], [tuple(x) for x in cfg[1]], [tuple(x) for x in cfg[2]], cfg[3]] + list(cfg[4:]))
         bad = check_pair(cfg, inp["program"], [tuple(x) for x in inp.get("schedule", [])], res[0], res[1])
         print("replay:", bad)
         return 1 if bad else 0
